@@ -413,6 +413,10 @@ func runServer(w *hx.Writer, id string, rng *hx.RNG, k int) {
 
 var boundaryLens = []int{0, 1, 11, 12, 13, 14, 511, 512, 4095, 4096, 65534, 65535}
 
+// bigDen: one in bigDen of the "large" draws is really large. Evaluating a
+// 64 KiB payload inside Coq costs about 1.5 s, so the quick tier keeps them rare.
+var bigDen = 4
+
 func genLen(r *hx.RNG) int {
 	switch r.Intn(10) {
 	case 0:
@@ -422,7 +426,7 @@ func genLen(r *hx.RNG) int {
 	case 2:
 		return r.Range(1000, 9000)
 	case 3:
-		if r.Chance(1, 4) {
+		if r.Chance(1, bigDen) {
 			return r.Range(30000, 65535)
 		}
 		return r.Range(13, 300)
@@ -488,6 +492,11 @@ func main() {
 	o := hx.ParseFlags()
 	w := hx.NewWriter(o)
 	defer w.Close()
+	quick := o.Tier != "thorough"
+	if quick {
+		bigDen = 12
+		boundaryLens = []int{0, 1, 11, 12, 13, 14, 511, 512, 4095, 4096}
+	}
 
 	// catalogue
 	cat := 0
@@ -495,6 +504,9 @@ func main() {
 		for ci, sizes := range [][]int{nil, {1}, {1, 1, 70000}, {0, 1, 0, 3}} {
 			id := fmt.Sprintf("cat:frame:%d:%d", n, ci)
 			cat++
+			if quick && n > 60000 && ci != 2 && !(n == 65535 && ci == 1) {
+				continue
+			}
 			if !o.Want(id) {
 				continue
 			}
@@ -532,7 +544,7 @@ func main() {
 	}
 
 	// generated
-	n := o.Count(700, 20000)
+	n := o.Count(500, 20000)
 	for i := 0; i < n; i++ {
 		id := fmt.Sprintf("gen:%d", i)
 		if !o.Want(id) {
@@ -541,7 +553,11 @@ func main() {
 		r := hx.NewRNG(o.Seed, id)
 		switch r.Intn(10) {
 		case 0:
-			runWrite(w, id, hx.Pick(r, []string{"WRaw", "WCopy"}), genLen(r)+r.Intn(2)*r.Intn(70000), r.U64()%1000000)
+			big := 0
+			if r.Chance(1, bigDen) {
+				big = r.Intn(70000)
+			}
+			runWrite(w, id, hx.Pick(r, []string{"WRaw", "WCopy"}), genLen(r)+big, r.U64()%1000000)
 		case 1:
 			runPack(w, id, r.Range(30, 70000), r.U64()%1000000)
 		default:
